@@ -180,7 +180,7 @@ func (it *Interp) zero(t types.Type) Val {
 		return IntV{IntI(0)}
 	case "time.Time":
 		z, _ := newBig(zeroTimeNS)
-		return TimeV{IntC(z)}
+		return TimeV{timeConst(z)}
 	case "github.com/cosmos/cosmos-sdk/types.Context":
 		return &Native{Kind: "ctx", Data: (*CtxData)(nil)}
 	}
